@@ -4,12 +4,54 @@
 #include "soplex.h"
 #include "common.hpp"
 #include <fstream>
+#include <cstring>
 #include <thread>
 #include <atomic>
 
 using namespace soplex;
 using vf::dy;
 typedef SoPlexBase<double> SP;
+
+// ---- static storage of this executable (.data and .bss: the statically linked library's namespace-scope, class-static and
+// function-local static objects; thread_local objects live elsewhere).  Snapshots before / after the workloads show which
+// static objects are written after static initialisation.
+extern "C" char __data_start, _edata, __bss_start, _end;
+
+static std::vector<unsigned char> snapStatic()
+{
+   std::vector<unsigned char> v;
+   v.insert(v.end(), (unsigned char*)&__data_start, (unsigned char*)&_edata);
+   v.insert(v.end(), (unsigned char*)&__bss_start, (unsigned char*)&_end);
+   return v;
+}
+
+static void diffStatic(const char* phase, const std::vector<unsigned char>& a, const std::vector<unsigned char>& b)
+{
+   size_t nd = (size_t)(&_edata - &__data_start);
+   printf("STATIC phase=%s data=%p bss=%p ranges=", phase, (void*)&__data_start, (void*)&__bss_start);
+
+   for(size_t k = 0; k < a.size() && k < b.size();)
+   {
+      if(a[k] == b[k])
+      {
+         k++;
+         continue;
+      }
+
+      size_t e = k;
+
+      while(e < a.size() && (a[e] != b[e] || (e + 8 < a.size() && memcmp(&a[e], &b[e], 8) != 0)))
+         e++;
+
+      const char* base = k < nd ? &__data_start : &__bss_start;
+      size_t off = k < nd ? k : k - nd;
+      printf("%p:%zu,", (void*)(base + off), e - k);
+      k = e;
+   }
+
+   printf("\n");
+   fflush(stdout);
+}
 
 struct CaseLP
 {
@@ -164,6 +206,8 @@ int main(int argc, char** argv)
    std::string line;
    CaseLP L;
    std::vector<Work> works;
+   std::vector<unsigned char> snap0 = snapStatic();    // after static initialisation, before any solver object exists
+   bool first = true;
 
    while(std::getline(in, line))
    {
@@ -216,6 +260,12 @@ int main(int argc, char** argv)
          for(size_t k = 0; k < works.size(); k++)
             seq[k] = runWork(works[k]);
 
+         std::vector<unsigned char> snap1 = snapStatic();
+
+         if(first)
+            diffStatic("first-sequential-pass", snap0, snap1);
+
+         first = false;
          std::vector<std::thread> th;
          std::atomic<int> go(0);
 
@@ -231,6 +281,11 @@ int main(int argc, char** argv)
          go.store(1);
 
          for(auto& x : th) x.join();
+
+         {
+            std::vector<unsigned char> snap2 = snapStatic();
+            diffStatic("threaded-pass", snap1, snap2);
+         }
 
          for(size_t k = 0; k < works.size(); k++)
             printf("RES threads=%d work=%s same=%d seq=%s par=%s\n", nt, works[k].id.c_str(), seq[k] == par[k] ? 1 : 0,
